@@ -315,7 +315,12 @@ def report(pid, tier, seed, pc, results, wall, scratch):
                 # reported by the checks the clause is attributed to; this property is not answered "holds".
                 if not any(match_known(known, q, f["obligation"]) for q in f["props"]):
                     sibling.setdefault(f["fn"], set()).update(f["props"])
-        undecided += [f"{r.name}: {fn} fails an obligation attributed to {','.join(sorted(ps)) or 'no property'}; the unit's proofs for {pid} are modular over that contract, so {pid} is not answered 'holds' (see the check of {','.join(sorted(ps)) or 'the unit'} for the violation)" for fn, ps in sorted(sibling.items())]
+            elif r.route == "kani":
+                # a harness of a Kani unit this property lists fails, attributed to other properties only: the real
+                # function the unit is about misbehaves; this property lists the unit because it depends on it
+                if not any(match_known(known, q, f["obligation"]) for q in f["props"]):
+                    sibling.setdefault(f["obligation"].split(":")[0], set()).update(f["props"])
+        undecided += [f"{r.name}: {fn} fails an obligation attributed to {','.join(sorted(ps)) or 'no property'}; {pid} rests on this unit too (Verus proofs are modular over every contract of the unit; a Kani unit is listed because the property depends on the functions it checks), so {pid} is not answered 'holds' (see the check of {','.join(sorted(ps)) or 'the unit'} for the violation)" for fn, ps in sorted(sibling.items())]
         undecided += [f"{r.name}: {u}" for u in r.undecided]
         trusted += getattr(r, "trusted_named", []) if r.route == "verus" else r.trusted
         functions += r.functions
